@@ -103,7 +103,7 @@ theorem apiPre_some (pc x : PeerCase) (h : apiPre pc = some x) :
 
 theorem apiSplit_model : ∀ (pcs : List PeerCase) (fl : List Bool),
     fl.length = ((pcs.map apiPre).filterMap id).length →
-    Spec.apiSplit pcs (mergeAdded (pcs.map apiPre) fl) = some (some ((pcs.map apiPre).filterMap id, fl)) := by
+    Spec.apiSplit pcs (mergeAdded (pcs.map apiPre) fl) = some ((pcs.map apiPre).filterMap id, fl) := by
   intro pcs
   induction pcs with
   | nil => intro fl h; cases fl <;> simp_all [mergeAdded, Spec.apiSplit]
@@ -116,7 +116,6 @@ theorem apiSplit_model : ∀ (pcs : List PeerCase) (fl : List Bool),
       simp only [mergeAdded, Spec.apiSplit, ih fl h]
       cases hc : Spec.apiClass pc with
       | valid => exact absurd hc hcl
-      | mustRefuse => simp
       | mayRefuse => simp
     | some x =>
       obtain ⟨hcl, hrd⟩ := apiPre_some pc x hp
